@@ -621,3 +621,57 @@ func H_C18_tls() {
 }
 
 func vConnName(r *Request) string { return fmt.Sprintf("c%d", r.ConnectionID()) }
+
+func init() { vReg("H_C15_server", H_C15_server) }
+
+// C15: no data race on state owned by gldap (server, mux, connections) in a
+// workload with pipelined requests, concurrent writes, a StartTLS upgrade,
+// Stop and Ready callers and connection teardown.  The recorded accesses are
+// handed to the partial-order layer (race queries).
+func H_C15_server() {
+	// two base schedules (child-first / spawner-first); the partial-order layer
+	// quantifies over all consistent reorderings of each recorded trace
+	if vBool("lateSchedule") {
+		vLateSched()
+	}
+	v := vNewSrv()
+	vTrack(v.s, "server")
+	vTrack(v.mux, "mux")
+	var mu sync.Mutex
+	tracked := map[int]bool{}
+	hf := func(w *ResponseWriter, r *Request) {
+		mu.Lock()
+		if !tracked[r.ConnectionID()] {
+			tracked[r.ConnectionID()] = true
+			vTrack(r.conn, fmt.Sprintf("conn%d", r.ConnectionID()))
+		}
+		mu.Unlock()
+		_ = w.Write(r.NewResponse(WithResponseCode(ResultSuccess)))
+	}
+	vAssume(v.mux.Delete(hf) == nil && v.mux.Add(hf) == nil)
+	vAssume(v.mux.ExtendedOperation(func(w *ResponseWriter, r *Request) {
+		_ = w.Write(r.NewExtendedResponse(WithResponseCode(ResultSuccess)))
+		_ = r.StartTLS(vTLSConfig())
+	}, ExtendedOperationStartTLS) == nil)
+	c1, c2 := vNetConn("c1"), vNetConn("c2")
+	vConnSet(c1, "tlsOK", true)
+	vConnFeed(c1, vWire(refEnvelope(1, refDeleteOp(), nil)))
+	if vBool("upgrade") {
+		vConnFeed(c1, vWire(refEnvelope(2, refStartTLSOp(), nil)))
+	}
+	vConnFeed(c1, vWire(refEnvelope(3, refDeleteOp(), nil)))
+	vConnFeed(c2, vWire(refEnvelope(1, refDeleteOp(), nil)))
+	vEnvAccept(c1)
+	vEnvAccept(c2)
+	go func() { vEvent("ready", v.s.Ready()) }()
+	v.goRun()
+	go func() { vEvent("ready", v.s.Ready()) }()
+	if vBool("earlyStop") {
+		v.goStop()
+	}
+	vQuiesce()
+	v.goStop()
+	vQuiesce()
+	vAssertE(v.ranRun && v.ranStop, "workload completes")
+	vReach("workload")
+}
